@@ -7,11 +7,13 @@
 #  3. store patch, demo, meta.json under /verif/seeded/PROP-K/.
 PROP=$1; K=$2; shift 2; CHECKS=${*:-$PROP}
 SRC=/tmp/seed/$PROP/out/$K
+[ -f "$SRC/patch.diff" ] || SRC=/verif/seeded/$PROP-$K     # stored copy of an evaluated change
+BASE=$(/venv/bin/python -c "import json,sys;print(json.load(open(sys.argv[1])).get('base_commit','HEAD'))" /verif/seeded/$PROP-$K/meta.json 2>/dev/null || echo HEAD)
 WT=/tmp/seedrun/$PROP-$K
 VS=/tmp/vs/$PROP-$K
 [ -f "$SRC/patch.diff" ] || { echo "no patch at $SRC"; exit 2; }
 rm -rf "$WT"; mkdir -p /tmp/seedrun
-git -C /repo worktree add -q --detach "$WT" HEAD || exit 2
+git -C /repo worktree add -q --detach "$WT" ${BASE:-HEAD} || exit 2
 cd "$WT"
 PYTHONPATH=$WT /venv/bin/python "$SRC/demo.py" >/tmp/seedrun/$PROP-$K.demo0 2>&1; D0=$?
 git apply "$SRC/patch.diff" || { echo "patch does not apply"; git -C /repo worktree remove --force "$WT"; exit 2; }
@@ -29,11 +31,23 @@ for C in $CHECKS; do
   RES="$RES{\"check\":\"$C\",\"violation_lines\":$RC,\"first\":\"$(echo $LINE | sed 's/"/\\"/g')\",\"summary\":\"$(echo $SUMMARY | sed 's/"/\\"/g')\"},"
 done
 DEST=/verif/seeded/$PROP-$K
-mkdir -p $DEST && cp "$SRC/patch.diff" "$SRC/demo.py" $DEST/ && cp "$SRC/notes.md" $DEST/notes.md 2>/dev/null
+mkdir -p $DEST; [ "$SRC" = "$DEST" ] || { cp "$SRC/patch.diff" "$SRC/demo.py" $DEST/ && cp "$SRC/notes.md" $DEST/notes.md 2>/dev/null; }
+cp $DEST/meta.json /tmp/seedrun/$PROP-$K.oldmeta 2>/dev/null
 cat > $DEST/meta.json <<META
 {"property": "$PROP", "change": $K,
  "confirmed": {"demo_exit_unpatched": $D0, "demo_exit_patched": $D1, "tests_patched": "$TESTS"},
  "ran": "fresh worktree of /repo HEAD + git apply patch.diff; pytest; demo.py; then 'VERIF_REPO=<worktree> ./check <id>' from a private copy of /verif (equivalent to git -C /repo apply + ./check + git checkout, without disturbing concurrent builds)",
  "checks": [${RES%,}]}
 META
+/venv/bin/python - "$DEST/meta.json" "/tmp/seedrun/$PROP-$K.oldmeta" <<'PYEOF'
+import json, sys, os
+new = json.load(open(sys.argv[1]))
+if os.path.exists(sys.argv[2]):
+    old = json.load(open(sys.argv[2]))
+    for k in ("history", "base_commit", "base_note", "summary_text"):
+        if k in old:
+            new[k] = old[k]
+    json.dump(new, open(sys.argv[1], "w"), indent=1, ensure_ascii=False)
+PYEOF
+rm -f /tmp/seedrun/$PROP-$K.oldmeta /tmp/seedrun/$PROP-$K.demo0 /tmp/seedrun/$PROP-$K.demo1
 cd /; [ -n "$KEEP" ] && exit 0; git -C /repo worktree remove --force "$WT"; rm -rf "$VS"
